@@ -35,6 +35,8 @@ pub enum Mode {
     Read,
     Write,
     Both,
+    /// packed words only: one store that writes every field at once (other kinds: same as Write)
+    WriteAll,
 }
 
 /// Spelling choices that solc really makes.
@@ -122,8 +124,15 @@ fn mapping_key(slot: U, keys: &[KeyKind], sp: &Spelling, first_arg: usize) -> (V
             KeyKind::Word => arg(first_arg + i),
         };
         if i == 0 {
-            t.extend(key);
-            t.extend([p(0), o(op::MSTORE), pu(slot), p(0x20), o(op::MSTORE)]);
+            if sp.mask_first {
+                // solc emits both orders of the two scratch-space stores
+                t.extend([pu(slot), p(0x20), o(op::MSTORE)]);
+                t.extend(key);
+                t.extend([p(0), o(op::MSTORE)]);
+            } else {
+                t.extend(key);
+                t.extend([p(0), o(op::MSTORE), pu(slot), p(0x20), o(op::MSTORE)]);
+            }
         } else {
             // the previous hash is on the stack: it is the "slot" of the next level
             t.extend([p(0x20), o(op::MSTORE)]);
@@ -211,11 +220,63 @@ fn packed_write(key: Vec<Tok>, value: Vec<Tok>, k: usize, w: usize, sp: &Spellin
     t
 }
 
+/// One store that writes ALL fields of a packed word at once: the OR of every field's shifted bits (plus the
+/// untouched old bits when the fields do not cover the word). `accumulate` selects the association of the ORs:
+/// push every term and OR at the end, or keep a running accumulator (t0 t1 OR t2 OR ...).
+fn packed_write_all(key: Vec<Tok>, fields: &[(usize, usize)], sp: &Spelling, accumulate: bool) -> Vec<Tok> {
+    let mut terms: Vec<Vec<Tok>> = Vec::new();
+    let mut covered = U::ZERO;
+    for (i, (k, w)) in fields.iter().enumerate() {
+        let bits = 8 * *k as u32;
+        let m = field_mask(*w);
+        let shifted_mask = if *k == 0 { m } else { m.shl_n(bits) };
+        covered = covered.or(shifted_mask);
+        let term = if *k == 0 {
+            and_mask(m, sp, arg(i))
+        } else if sp.mul_write {
+            let mut t = and_mask(m, sp, arg(i));
+            t.extend([pu(U::pow2(bits)), o(op::MUL)]);
+            t
+        } else {
+            let mut v = arg(i);
+            v.extend([p(bits as u64), o(op::SHL)]);
+            and_mask(shifted_mask, sp, v)
+        };
+        terms.push(term);
+    }
+    if covered != U::MAX {
+        let mut old = key.clone();
+        old.push(o(op::SLOAD));
+        terms.push(and_mask(covered.not(), sp, old));
+    }
+    let mut t = Vec::new();
+    if accumulate {
+        for (i, term) in terms.into_iter().enumerate() {
+            t.extend(term);
+            if i > 0 {
+                t.push(o(op::OR));
+            }
+        }
+    } else {
+        let n = terms.len();
+        for term in terms {
+            t.extend(term);
+        }
+        for _ in 1..n {
+            t.push(o(op::OR));
+        }
+    }
+    t.extend(key);
+    t.push(o(op::SSTORE));
+    t
+}
+
 /// The branch bodies (each ends the execution) that access `var` in the given mode.
 pub fn fragments(var: &Var, mode: Mode, sp: &Spelling) -> Vec<Vec<Tok>> {
     let mut out: Vec<Vec<Tok>> = Vec::new();
-    let reads = mode != Mode::Write;
-    let writes = mode != Mode::Read;
+    let packed = matches!(var.kind, Kind::Packed(_));
+    let reads = mode == Mode::Read || mode == Mode::Both;
+    let writes = mode == Mode::Write || mode == Mode::Both || (mode == Mode::WriteAll && !packed);
     let s = var.slot;
     match &var.kind {
         Kind::Word => {
@@ -300,6 +361,11 @@ pub fn fragments(var: &Var, mode: Mode, sp: &Spelling) -> Vec<Vec<Tok>> {
                     t.push(o(op::STOP));
                     out.push(t);
                 }
+            }
+            if mode == Mode::WriteAll {
+                let mut t = packed_write_all(vec![pu(s)], fields, sp, sp.index_first);
+                t.push(o(op::STOP));
+                out.push(t);
             }
         }
     }
